@@ -41,9 +41,11 @@ def check_field_semantics(ctx, rid_round="R3", rid_prec="R4", rid_defaults="R5")
     fh_marker = object()
     last = {}
 
-    def fields_of(short, wi, data, kwargs, extra_pos=()):
-        """Final field dictionary for one object / keyword set; raises Raised for a rendering failure."""
-        ev = AccessorEval(prog, iocls)
+    def fields_of(short, wi, data, kwargs, extra_pos=(), ev=None):
+        """Final field dictionary for one object / keyword set; raises Raised for a rendering failure.
+
+        With `ev` given, the call is evaluated in the module state an earlier call (with the same evaluator) left."""
+        ev = ev or AccessorEval(prog, iocls)
         captured = {}
 
         def stub(args, kw):
@@ -191,4 +193,20 @@ def check_field_semantics(ctx, rid_round="R3", rid_prec="R4", rid_defaults="R5")
                     return "without a user atom_line (but with a user template) the default atom-line function is not used"
             return None
         run(rid_prec, f"{short}: user template and atom-line callback are used as given; the module defaults only when they are None", f)
+
+        def f(short=short, wi=wi):
+            # two calls in one module state: what the first call was given must not show in the second
+            ev = AccessorEval(prog, iocls)
+            fields_of(short, wi, mk(charge=1.0, spinpol=1.0, title="first"), {"charge": 3, "spinmult": 4, "title": "FIRST", "only_first": "x"}, ev=ev)
+            second = fields_of(short, wi, mk(title="second"), {}, ev=ev)
+            fresh = fields_of(short, wi, mk(title="second"), {})
+            for k in sorted(set(second) | set(fresh), key=str):
+                if k in ("geometry",):
+                    continue
+                a, b = second.get(k, "<missing>"), fresh.get(k, "<missing>")
+                same = a is b or (type(a) is type(b) and not isinstance(a, (Rec, np.ndarray)) and a == b) or (isinstance(a, (Rec, np.ndarray)) and isinstance(b, type(a)))
+                if not same:
+                    return f"field `{k}` of a second call is {a!r}; the same call in a fresh process gives {b!r} (state of an earlier call leaks into the field dictionary)"
+            return None
+        run(rid_prec, f"{short}: the field dictionary of a call depends on that call only (a second call in the same process gives the fields of a first call)", f)
     ctx.floor(rid_prec, nprog, 2, "input writers")
